@@ -385,6 +385,10 @@ func runFaultCase(c faultCase) *Violation {
 				return violation(prop, "merge/file-left-behind", "Merge failed (%v) at offset %d of %d (buffer %d) but left a file at the path", merr, off, len(data), c.BufSize)
 			}
 		}
+		// the same inputs with EVERY document deleted (a merge without survivors), under the same kind of fault
+		if v := allDroppedMergeFaults(prop, c, segs, root.ChunkMode); v != nil {
+			return v
+		}
 		if len(data) <= 256<<10 {
 			if p3, ok := syncFaultPath("c17ms"); ok {
 				merr := drive.Safe(func() error {
@@ -571,6 +575,57 @@ func overlappingWriteTo(prop string, sb *zap.SegmentBase, data []byte) *Violatio
 		}
 		if !bytes.Equal(wa.buf.Bytes(), data) || !bytes.Equal(wb.buf.Bytes(), otherImage.data) {
 			return violation(prop, "nofault/overlapping-writeto-bytes", "two overlapping fault-free WriteTo calls reported success, but the destinations received %d and %d bytes that are not the two images (%d and %d bytes)", wa.buf.Len(), wb.buf.Len(), len(data), len(otherImage.data))
+		}
+	}
+	return nil
+}
+
+// allDroppedMergeFaults merges segs with every document deleted: fault-free once (to learn the
+// size), then with the file system cutting the output at a few offsets.
+func allDroppedMergeFaults(prop string, c faultCase, segs []segment.Segment, chunkMode uint32) *Violation {
+	drops := make([]*roaring.Bitmap, len(segs))
+	for i, sg := range segs {
+		drops[i] = roaring.New()
+		if n := sg.Count(); n > 0 {
+			drops[i].AddRange(0, n)
+		}
+	}
+	p0 := drive.NewPath("c17z")
+	defer os.Remove(p0)
+	if err := drive.Safe(func() error {
+		_, _, e := drive.Merge(segs, drops, p0, chunkMode, nil, nil)
+		return e
+	}); err != nil {
+		return violation(prop, "nofault/merge-error", "fault-free Merge with every document deleted failed: %v", err)
+	}
+	d0, _ := os.ReadFile(p0)
+	if v := checkFooter(prop, d0, 0, effMode(chunkMode)); v != nil {
+		v.Signature = "nofault/all-dropped-" + v.Signature
+		return v
+	}
+	for _, off := range []int{0, 1, 10, len(d0) - zap.FooterSize, len(d0) - 1} {
+		if off < 0 || off >= len(d0) {
+			continue
+		}
+		faultStats.faulted++
+		p2 := drive.NewPath("c17zf")
+		c.reserve(p2)
+		var merr error
+		if lerr := faults.WithFileSizeLimit(uint64(off), func() {
+			merr = drive.Safe(func() error {
+				_, _, e := drive.Merge(segs, drops, p2, chunkMode, nil, nil)
+				return e
+			})
+		}); lerr != nil {
+			return nil
+		}
+		_, serr := os.Stat(p2)
+		os.Remove(p2)
+		if merr == nil {
+			return violation(prop, "merge/fault-swallowed", "Merge with every document deleted returned nil although the file system accepted only %d of %d bytes", off, len(d0))
+		}
+		if serr == nil {
+			return violation(prop, "merge/file-left-behind", "Merge with every document deleted failed (%v) at offset %d of %d but left a file at the path", merr, off, len(d0))
 		}
 	}
 	return nil
